@@ -27,6 +27,7 @@ is modelled down to the processor's write mutex (lock / write / oversize → err
 -/
 import FV.Model.NatsServer
 import FV.Proofs.NatsServer
+import FV.Generated.Locks
 
 namespace FV.C20
 open FV.NS
@@ -365,5 +366,13 @@ example : ∃ s, run (init 2 2)
     step s (.workerLock 0) = none ∧
     ∃ s', run s [.workerWriteOk 1, .workerUnlock 1] = some s' ∧ (step s' (.workerLock 0)).isSome = true :=
   ⟨_, rfl, rfl, _, rfl, rfl⟩
+
+/-- **Lock discipline behind the model's worker step** (processor write mutex, NATS server send mutex), decided by the
+kernel on facts REGENERATED from lib/go's source on every check: no function calls, while it holds one of these
+mutexes, anything that (transitively) acquires the same mutex, no lexical re-lock, every path out of a function
+releases what it locked — the source-text half of `c20_write_mutex_never_wedges` (the `reentrant = false`
+parameter of the model is this fact). -/
+theorem c20_lock_discipline :
+    FV.Locks.ok [5, 6] FV.Generated.Locks.mutexTags FV.Generated.Locks.facts = true := by decide +kernel
 
 end FV.C20
